@@ -1353,6 +1353,15 @@ impl Runner for ServiceRunner {
                 out.push("ok".into());
             }
             _ if !self.insts.contains_key(&x) && t[0] != "sbans" => noop(out),
+            // an address is put on the permit list (packets from it always pass the filter; misbehaviour
+            // is recorded all the same)
+            ["spermit", _, addr] => {
+                let Some(a) = parse_addr(addr) else { return noop(out) };
+                discv5::verif::limiter::permit_ip(a.ip());
+                stats.bump("s.permitted-ip");
+                out.push(format!("!OP spermit {}", x));
+                out.push("ok".into());
+            }
             // the application stops / resumes reading its event stream; what piled up is discarded
             ["sevpause", _] => {
                 self.insts.get_mut(&x).unwrap().events_paused = true;
@@ -2091,6 +2100,10 @@ fn gen_c11(rng: &mut Rng, ops: &mut Vec<String>, stats: &mut Stats) {
     }
     // A knows B and a few others
     ops.push(format!("sest A k{}:{}:4:0 = o", b, bseq));
+    if rng.chance(1, 4) {
+        // the responder's address is on A's permit list
+        ops.push(format!("spermit A {}", peer_addr(b, "ip4")));
+    }
     let mut others: Vec<u64> = Vec::new();
     for _ in 0..rng.range(0, 4) {
         let s = rng.range(100, 300);
